@@ -147,6 +147,16 @@ def clean_scenarios(tier="quick"):
             files = {"ddx": "ninja_dyndep_version = 1\nbuild out | gen: dyndep\n"}
         T.append(scenario("c18/" + name, "c18", variants, files=files, ops=ops + tools, init=[build],
                           depth=3 if tier == "quick" else 4, tags=["clean"] + (["invalid-dyndep"] if name.startswith("dyndep_claims") else [])))
+    # cleandead and clean in a project that binds builddir (the logs it consults live there)
+    for name, variants in builddir_shapes():
+        bv = [variants[0], Variant("v1", [st for st in variants[0].stmts if st.id != "obj2"][:2] + [Stmt("exe", ex=["obj", "r"])], header="builddir = bd")]
+        ops, build = _common_ops(bv)
+        tools = [tool_op("cleandead"), tool_op("cleandead", dry=True, verbose=True), tool_op("clean-all"), tool_op("clean-targets", ["exe"]),
+                 tool_op("clean-rules", ["r0"])]
+        for t in tools:
+            t["no_expand"] = True
+        T.append(scenario("c18/" + name, "c18", bv, ops=ops + tools, init=[build], depth=3 if tier == "quick" else 4, tags=["clean", "builddir"],
+                          builddir="bd"))
     # a build log past the recompaction threshold with a stale output that still exists on disk
     v = Variant("v0", [Stmt("a", ex=["s"]), Stmt("b", ex=["a"])])
     log = "# ninja log v7\n"
